@@ -8,7 +8,7 @@ def run(ctx):
     facts = ctx.facts(b, ["macros", "names", "scalar", "compton", "kissel"])
     gl = os.path.join(VERIF, "facts", "gl48.json")
     nodes = os.path.join(ctx.scratch, "gl48.txt"); open(nodes, "w").write("\n".join(json.load(open(gl))["x"]) + "\n")
-    ne = 61 if ctx.quick else 601
+    ne = 61 if ctx.quick else 3001
     tr = os.path.join(ctx.scratch, "c12.ndjson")
     ctx.run_harness(exe, ["c12", nodes, ne], tr)
     n = sum(1 for _ in open(tr))
